@@ -217,6 +217,7 @@ def encodingsImpl (known : List Name) (bom : Option Name) (user : List Name) (de
 
 /-! ### documented meaning of the candidate list -/
 
+set_option wf.preprocess false in
 /-- keep the first of every group of names that are equal ignoring case -/
 def dedupLower : List Name → List Name
   | [] => []
@@ -224,10 +225,7 @@ def dedupLower : List Name → List Name
 termination_by l => l.length
 decreasing_by
   simp only [List.length_cons]
-  apply Nat.lt_succ_of_le
-  first
-    | exact List.length_filter_le _ _
-    | (simp only [List.unattach_filter, List.unattach_attach]; exact List.length_filter_le _ _)
+  exact Nat.lt_succ_of_le (List.length_filter_le _ _)
 
 /-- all sources in the documented order -/
 def sources (known : List Name) (bom : Option Name) (user : List Name) (declared : Option Name) : List Name :=
@@ -387,7 +385,12 @@ def dammitSpec (C : Codecs) (data : Bytes) (cands : List Name) : Option PStr × 
 inductive Prepared where
   | ok (text : PStr) (originalEncoding declaredHtml : Option Name) (containsReplacement : Bool)
   | rejected
-deriving Repr
+deriving Repr, DecidableEq
+
+/-- `if user_specified_encoding: known_definite_encodings.append(…)` (_htmlparser.py:409-415) -/
+def knownOfFromEncoding : Option Name → List Name
+  | some e => if e.isEmpty then [] else [e]
+  | none => []
 
 /-- `BeautifulSoup(markup, "html.parser", from_encoding=…, exclude_encodings=…)` up to the feed:
     bs4/__init__.py:334-342 (from_encoding ignored for str), _htmlparser.py:402-447. -/
@@ -395,9 +398,7 @@ def prepareMarkup (C : Codecs) (m : Markup) (fromEncoding : Option Name) (exclud
   match m with
   | .str s => .ok s none none false                                          -- :402-405
   | .bytes _ =>
-    let known := match fromEncoding with                                     -- :409-415 (`if user_specified_encoding`)
-      | some e => if e.isEmpty then [] else [e]
-      | none => []
+    let known := knownOfFromEncoding fromEncoding                            -- :409-415
     let r := dammit C { known := known, user := [], exclude := exclude, isHtml := true } m   -- :423-429
     match r.text with
     | none => .rejected                                                      -- :431-440
